@@ -240,12 +240,12 @@ func checkC15(w *World) {
 	w.floor(P, "R15.5", 2)
 
 	// R15.6
-	if jp := w.method("parser", "jsonParser", "Pull"); jp != nil {
+	if jp := w.pullOf("ReadJson"); jp != nil {
 		w.adapterError(P, "R15.6", jp, "Token")
 	} else {
 		w.undecided(P, "R15.6", "JSON adapter", 0, "not found")
 	}
-	if xp := w.method("parser", "xmlParser", "Pull"); xp != nil {
+	if xp := w.pullOf("ReadXml"); xp != nil {
 		w.adapterError(P, "R15.6", xp, "Token")
 	}
 	if rh := w.member("parser", "ReadHtml"); rh != nil {
